@@ -238,6 +238,10 @@ func runC13(c *Ctx) {
 		return isLocalSet(c, lk.X, env) && strings.Contains(c.Path(lk.Index, env), "net/url.Parse("+uri+")")
 	}})
 
+	// the key two URIs are compared by is the parsed URI's own text: nothing folds distinct URIs together (lower-casing,
+	// trimming, …), which would refuse a valid list as containing duplicates
+	c.alsoKnownAsKeyRule("C13.U2", aka, uri)
+
 	// ---------------- replace
 	c.CheckGuard("C13.G1", "replace:value-is-map", repl, nil, &GCheck{Name: "value.(map[string]interface{}) ok", MatchOK: func(c *Ctx, v ssa.Value, env Env) bool {
 		ta, ok := v.(*ssa.TypeAssert)
@@ -364,6 +368,46 @@ func (c *Ctx) accessorBody(f *ssa.Function) string {
 		return ""
 	}
 	return c.Path(returnedValue(rs[0], 0), Env{f.Params[0]: "$0"})
+}
+
+// alsoKnownAsKeyRule: every key the also-known-as validator's seen-set is searched or filled with is url.Parse(uri).String()
+// of the element (or the element itself).
+func (c *Ctx) alsoKnownAsKeyRule(rule string, aka *ssa.Function, uri string) {
+	if aka == nil {
+		return
+	}
+	n, okK := 0, true
+	var got []string
+	for _, f := range c.reachableModuleFuncs([]*ssa.Function{aka}) {
+		if pkgPathOf(f) != pkgPathOf(aka) {
+			continue
+		}
+		forEachInstr(f, func(in ssa.Instruction) {
+			mm, ok := in.(*ssa.MakeMap)
+			if !ok {
+				return
+			}
+			look, fill := map[string]bool{}, map[string]bool{}
+			c.setOps(mm, nil, 0, look, fill)
+			if len(look) == 0 || len(fill) == 0 {
+				return
+			}
+			for k := range fill {
+				look[k] = true
+			}
+			for k := range look {
+				n++
+				got = append(got, k)
+				// (*net/url.URL).String(net/url.Parse(<element>)#0) or the element itself
+				inner := strings.TrimSuffix(strings.TrimPrefix(k, "(*net/url.URL).String(net/url.Parse("), ")#0)")
+				if !(strings.HasPrefix(k, "(*net/url.URL).String(net/url.Parse(") && strings.HasSuffix(inner, "[ι]")) && !strings.HasSuffix(k, "[ι]") {
+					okK = false
+				}
+			}
+		})
+	}
+	sort.Strings(got)
+	c.Check(rule, "also-known-as:key-is-the-uri-text", okK && n > 0, aka.Pos(), fmt.Sprintf("the duplicate test compares %v (expected url.Parse(uri).String() of the element, or the element)", got))
 }
 
 // helpersOf: the unexported functions of f's package that f calls statically (transitively, up to depth levels), in
